@@ -6,8 +6,11 @@ import (
 	"image"
 	"image/color"
 	"os"
+	"runtime"
+	"runtime/debug"
 	"sort"
 	"strings"
+	"sync"
 
 	"github.com/reactivego/ivg"
 	"github.com/reactivego/ivg/decode"
@@ -397,15 +400,24 @@ func c18MakeTask(t *tape.Tape, p *c18Pool) c18Task {
 
 // ---------------------------------------------------------------------------
 
-type tapeDecider struct {
-	sched.Decider
-}
+var c18Once sync.Once
 
 func c18Run(ctx *Ctx, t *tape.Tape) *report.Violation {
 	if c18Install == nil {
 		return &report.Violation{Property: "C18", Invariant: "C18.not-instrumented", Message: "this binary was not built against the instrumented copy"}
 	}
 	c18LoadGlobals()
+	// Determinism of what the library may pull from the runtime: one P, no
+	// background GC during a case, and two collections at the start of every
+	// case so that sync.Pool caches (primary and victim) start empty. Without
+	// this a pooled object handed out by the runtime depends on GC timing and
+	// on which P a goroutine last ran on, and a violation would not replay.
+	c18Once.Do(func() {
+		runtime.GOMAXPROCS(1)
+		debug.SetGCPercent(-1)
+	})
+	runtime.GC()
+	runtime.GC()
 	st := ctx.Stats
 	pool := c18BuildPool(ctx, t)
 	k := t.Range(2, 6)
